@@ -280,6 +280,20 @@ def lookup_name(I, st, env, name, frame):
         return ModuleRef('%s.%s' % (imp[1], imp[2]))
     if (mod, name) in m.consts:
         node = m.consts[(mod, name)]
+        from . import census
+        mut = census.mutable_tables(m).get((mod, name))
+        if mut is not None:
+            # a module-level container that the package may change at run time: its content is part of the history,
+            # not a constant (an unknown number per key of the initial display; anything else is opaque)
+            oid = 'global:%s.%s' % (mod, name)
+            if isinstance(node, ast.Dict) and st is not None and all(isinstance(k, ast.Constant) for k in node.keys):
+                if oid not in st.maps:
+                    st.maps[oid] = tuple(('kv', const_value(k.value), I.symbol('%s[%r]' % (oid, k.value), kind='global', table=oid))
+                                         for k in node.keys)
+                    st.cls[oid] = 'dict'
+                st.ev('global-table', oid, mut[1], mut[2], mut[3])
+                return Obj(oid)
+            return Opaque(oid)
         if isinstance(node, ast.Dict) and st is not None:
             # module-level lookup table (possibly of lambdas): built in the current state; only read by the package
             from .absint import Frame
